@@ -133,13 +133,22 @@ func doLocalSymbolize(prof *profile.Profile, fast, force bool, obj plugin.ObjToo
 		}
 	}
 
+	// New functions get IDs above every existing one: the IDs of a profile
+	// need not be dense, so len(prof.Function)+1 may already be taken.
+	var maxID uint64
+	for _, f := range prof.Function {
+		if f.ID > maxID {
+			maxID = f.ID
+		}
+	}
 	functions := map[profile.Function]*profile.Function{}
 	addFunction := func(f *profile.Function) *profile.Function {
 		if fp := functions[*f]; fp != nil {
 			return fp
 		}
 		functions[*f] = f
-		f.ID = uint64(len(prof.Function)) + 1
+		maxID++
+		f.ID = maxID
 		prof.Function = append(prof.Function, f)
 		return f
 	}
